@@ -20,7 +20,9 @@ import (
 	"github.com/cockroachdb/redact"
 	"github.com/gogo/protobuf/proto"
 	pkgErr "github.com/pkg/errors"
+	gogostatus "github.com/gogo/status"
 	"google.golang.org/grpc/codes"
+	grpcstatus "google.golang.org/grpc/status"
 )
 
 // FrameRec is one captured stack frame: its PC and its `%+v` text.
@@ -233,6 +235,14 @@ func build(r *R) error {
 		r.S = []string{in(r, 0), in(r, 1), in(r, 2)}
 	case "testerr":
 		res = &errorspb.TestError{}
+	case "grpcstatus":
+		res = grpcstatus.Error(codes.Code(nin(r, 0)), in(r, 0))
+		r.S = []string{in(r, 0)}
+		r.N = []int{nin(r, 0)}
+	case "gogostatus":
+		res = gogostatus.Error(codes.Code(nin(r, 0)), in(r, 0))
+		r.S = []string{in(r, 0)}
+		r.N = []int{nin(r, 0)}
 	case "uleaf":
 		res = mkUserLeaf(r)
 	case "new":
